@@ -156,7 +156,7 @@ func genPosCase(t *rapid.T) posCase {
 	c.Steps = append(c.Steps, posStep{Cmd: posCmd{FEN: fenText, Moves: append([]string(nil), moves...)}})
 	n := rapid.IntRange(1, 7).Draw(t, "nsteps")
 	for i := 0; i < n; i++ {
-		rel := rapid.SampledFrom([]string{"verbatim", "extend", "extend", "extend", "truncate", "other-line", "fresh", "fen-textual-extension", "ucinewgame"}).Draw(t, "rel")
+		rel := rapid.SampledFrom([]string{"verbatim", "extend", "extend", "extend", "truncate", "other-line", "fresh", "fen-textual-extension", "fen-of-current", "fen-of-current", "ucinewgame"}).Draw(t, "rel")
 		switch rel {
 		case "ucinewgame":
 			c.Steps = append(c.Steps, posStep{NewGame: true})
@@ -179,6 +179,14 @@ func genPosCase(t *rapid.T) posCase {
 			play(rapid.IntRange(1, 4).Draw(t, "plies"))
 		case "fresh":
 			fenText, g = start()
+			moves = nil
+			play(rapid.IntRange(0, 6).Draw(t, "plies"))
+		case "fen-of-current":
+			// some GUIs re-send the current position as a FEN (same six fields the engine reports),
+			// with or without further moves: it describes a NEW game without the earlier history
+			cur := *g.Cur()
+			fenText = cur.FEN()
+			g = oracle.NewGame(cur)
 			moves = nil
 			play(rapid.IntRange(0, 6).Draw(t, "plies"))
 		case "fen-textual-extension":
